@@ -92,3 +92,27 @@ Example ctx_example :
                  EAtom (lit "H1") 2 (Some (11 # 1)) false true; EHklf; EAtom (lit "Q1") 1 (Some (11 # 1)) true true])
   = [(1%Z, 43%Z, 2%Z, 21 # 1, false); (0%Z, 0%Z, 0%Z, 11 # 1, true)].
 Proof. vm_compute. reflexivity. Qed.
+
+(* ---------- exactly one entry per atom line of the structure, in file order ---------- *)
+Fixpoint atom_lines (frag : bool) (evs : list event) : list str :=
+  match evs with
+  | [] => []
+  | EAtom n _ _ _ _ :: r => if frag then atom_lines frag r else n :: atom_lines frag r
+  | EFrag :: r => atom_lines true r
+  | EFend :: r => atom_lines false r
+  | _ :: r => atom_lines frag r
+  end.
+
+Lemma fold_names evs : forall c out,
+  map a_name (snd (fold_left step evs (c, out))) = map a_name out ++ atom_lines (c_frag c) evs.
+Proof.
+  induction evs as [|e evs IH]; intros c out; cbn [fold_left atom_lines]; [rewrite app_nil_r; reflexivity|].
+  destruct e; cbn [step]; try (rewrite IH; reflexivity).
+  all: destruct (c_frag c) eqn:F; rewrite IH; [rewrite F; reflexivity|]. all: rewrite F, map_app. all: cbn [map atom_of a_name]. all: rewrite <- app_assoc. all: reflexivity.
+Qed.
+
+Theorem atoms_in_file_order evs : map a_name (atoms_of evs) = atom_lines false evs.
+Proof. unfold atoms_of. rewrite fold_names. reflexivity. Qed.
+
+Theorem atoms_count evs : length (atoms_of evs) = length (atom_lines false evs).
+Proof. rewrite <- atoms_in_file_order. symmetry. apply map_length. Qed.
